@@ -118,6 +118,8 @@ func memberOfPool(p *Prog, fn *ssa.Function, v ssa.Value, param int, d int) bool
 }
 
 func runC11(p *Prog, r *Report) {
+	// R6: the pool and the cookie codecs agree on what "the same server" is (shared with C02.R4)
+	r.Borrow(p, runC02, map[string]string{"C02.R4": "C11.R6"}, nil)
 	impls := cookieValueImpls(p)
 	r.Floor("C11.R1", len(impls), 4, "CookieValue implementations")
 	for _, n := range impls {
